@@ -53,11 +53,53 @@ PROFILES = [
 ]
 
 
-def comp_args(exe, extra=(), profile=0):
+def comp_args(exe, extra=(), profile=0, lib="axllib"):
     RB = C.RB
     return [exe, "-Nfile=%s/aldor/src/aldor.conf" % RB, "-Y%s/aldor/lib/libfoam/al" % RB,
-            "-I%s/lib/axllib/include" % RB, "-Y%s/lib/axllib/src" % RB, "-Mno-emax"] + PROFILES[profile % len(PROFILES)] + \
+            "-I%s/lib/%s/include" % (RB, lib), "-Y%s/lib/%s/src" % (RB, lib), "-Mno-emax"] + PROFILES[profile % len(PROFILES)] + \
            ["-Fao", "-Ffm", "-Fc", "-Flsp", "-Fjava"] + list(extra)
+
+
+def aldor_programs(rnd, n):
+    """programs over the newer library (#include "aldor"): units whose object files carry many imported symbols
+    (the two libraries exercise different parts of the object-file writer).  One fixed program that imports a wide
+    range of operations, plus MiniAldor-generated programs (seeded)."""
+    wide = """#include "aldor"
+#include "aldorio"
+import from MachineInteger, Integer, String, Character, Boolean;
+import from List MachineInteger, List Integer, Array MachineInteger, List String;
+a: MachineInteger := 11; b: MachineInteger := 4;
+stdout << a + b << " " << a - b << " " << a * b << " " << a quo b << " " << a rem b << newline;
+stdout << max(a, b) << " " << min(a, b) << " " << abs(a) << " " << -a << " " << a^2 << newline;
+stdout << (a = b) << " " << (a < b) << " " << (a >= b) << " " << zero? a << " " << odd? a << " " << even? b << newline;
+x: Integer := 98765432109876543210; y: Integer := 1234567;
+stdout << x + y << " " << x - y << " " << x * y << " " << x quo y << " " << x rem y << " " << gcd(x, y) << newline;
+stdout << (x < y) << " " << abs(-x) << " " << x^2 << " " << factorial(12@Integer) << " " << length x << newline;
+l: List MachineInteger := [5, 6, 7, 8];
+stdout << #l << " " << first l << " " << rest l << " " << reverse l << " " << empty? l << " " << cons(0, l) << " " << l.2 << newline;
+li: List Integer := [x, y, x - y];
+stdout << #li << " " << first li << " " << reverse li << newline;
+ar: Array MachineInteger := new(4, 2);
+ar.1 := 9; ar.2 := ar.1 + 1;
+stdout << #ar << " " << ar.1 << " " << ar << newline;
+s: String := "determinism";
+stdout << #s << " " << s.1 << " " << upper s << " " << (s = s) << " " << s + "!" << newline;
+ls: List String := [s, upper s];
+stdout << #ls << " " << first ls << newline;
+c: Character := char "q";
+stdout << c << " " << upper c << " " << ord c << " " << letter? c << " " << digit? c << newline;
+stdout << (true and false) << " " << (true or false) << " " << ~true << newline;
+"""
+    res = [("wide", wide.encode())]
+    try:
+        from props import mini
+        seeds = [rnd.randrange(1, 10**9) for _ in range(max(0, n - 1))]
+        for i, g in enumerate(mini.gen(seeds, 30)):
+            if g and g.get("src"):
+                res.append(("mini%d" % i, g["src"].encode()))
+    except Exception as e:          # the generator belongs to another check: its absence only narrows the sample
+        res.append(("wide2", wide.replace("determinism", "function of input").encode()))
+    return res
 
 
 def big_program(n):
@@ -86,7 +128,7 @@ def collect(d, names):
     return out
 
 
-def run_variant(exe, work, tag, progs, variant, profile=0):
+def run_variant(exe, work, tag, progs, variant, profile=0, lib="axllib"):
     """returns (variant, outputs hash map, normalised message text)"""
     kind = variant[0]
     d = "%s/%s" % (work, tag)
@@ -112,12 +154,12 @@ def run_variant(exe, work, tag, progs, variant, profile=0):
     texts = []
     rcs = []
     if kind == "batched":
-        rc, out, err = C.run(pre + comp_args(exe, extra, profile) + [n + ".as" for n, _ in progs], cwd=d, env=env, timeout=900)
+        rc, out, err = C.run(pre + comp_args(exe, extra, profile, lib) + [n + ".as" for n, _ in progs], cwd=d, env=env, timeout=900)
         texts.append(out + err)
         rcs.append(rc)
     else:
         for n, _ in progs:
-            rc, out, err = C.run(pre + comp_args(exe, extra, profile) + [n + ".as"], cwd=d, env=env, timeout=240)
+            rc, out, err = C.run(pre + comp_args(exe, extra, profile, lib) + [n + ".as"], cwd=d, env=env, timeout=240)
             texts.append(out + err)
             rcs.append(rc)
     if 124 in rcs:
@@ -148,18 +190,25 @@ def run(rep, tier):
         groups = [progs[i:i + 3] for i in range(0, len(progs), 3)]
     # one large unit per run, alone in its group (profile -Q3)
     groups.append([("big%d" % (100 if tier == "quick" else 160), big_program(100 if tier == "quick" else 160))])
+    nbig = len(groups) - 1
+    # units over the newer library: one group per program (quick: the wide unit + 2 generated; thorough: + 8)
+    alds = aldor_programs(rnd, 3 if tier == "quick" else 9)
+    first_ald = len(groups)
+    groups += [[p] for p in alds]
     def prof(gi):
-        return 1 if gi == len(groups) - 1 else gi      # the large unit at -Q3, the others cycle through the profiles
+        return 1 if gi == nbig else gi      # the large unit at -Q3, the others cycle through the profiles
+    def libof(gi):
+        return "aldor" if gi >= first_ald else "axllib"
     jobs = []
     for gi, g in enumerate(groups):
         for vi, v in enumerate(variants):
-            if gi == len(groups) - 1 and v[0] == "forcegc" and v[1] < 1000:
+            if gi == nbig and v[0] == "forcegc" and v[1] < 1000:
                 continue        # the large unit under a dense forced-collection schedule takes minutes: sparse schedules only
             jobs.append((gi, g, v, "g%d_v%d" % (gi, vi)))
         jobs.append((gi, g, ("batched",), "g%d_batched" % gi))
     results = {}
     with concurrent.futures.ThreadPoolExecutor(C.NCPU) as ex:
-        futs = {ex.submit(run_variant, exe, work, tag, g, v, prof(gi)): (gi, v) for gi, g, v, tag in jobs}
+        futs = {ex.submit(run_variant, exe, work, tag, g, v, prof(gi), libof(gi)): (gi, v) for gi, g, v, tag in jobs}
         for f in concurrent.futures.as_completed(futs):
             gi, v = futs[f]
             results[(gi, v)] = f.result()
@@ -199,7 +248,8 @@ def run(rep, tier):
     rep.add_cov(evaluations=len(jobs), distinct_nontrivial=ncmp,
                 rule="one evaluation = compiling a group of <=3 corpus programs under one perturbation; non-trivial = compared "
                      "against the base run of the same group (all outputs + message stream)",
-                samples=samples, perturbations=[list(v) for v in variants] + [["batched"]], programs=len(progs) + 1,
+                samples=samples, perturbations=[list(v) for v in variants] + [["batched"]], programs=len(progs) + 1 + len(alds),
+                libraries={"axllib": first_ald, "aldor": len(alds)},
                 option_profiles=PROFILES,
                 differing_comparisons=diffs, inconclusive_time_limit=timeouts)
     rep.assume("setarch -R switches ASLR off; the default run has ASLR on",
